@@ -5,13 +5,13 @@ import json, os, sys
 ROOT = os.path.dirname(os.path.dirname(os.path.abspath(__file__)))
 sys.path.insert(0, os.path.join(ROOT, "lib"))
 from props import PROPS
-from manifest_text import TEXT, NOT_YET, HOOK_COMMITS
+from manifest_text import TEXT, NOT_YET, HOOK_COMMITS, PENDING
 
 ids = [json.loads(l)["id"] for l in open(os.path.join(ROOT, "properties.jsonl"))]
 checks = []
 na = []
 for pid in ids:
-    if pid in PROPS and pid in TEXT:
+    if pid in PROPS and pid in TEXT and pid not in PENDING:
         t = TEXT[pid]
         checks.append({
             "property_id": pid,
